@@ -235,7 +235,9 @@ class UDPMessageDeserializer:
             # If it has a null terminator, let's try to decode it first.
             # We don't want to do this if there isn't one, because that may change
             # the meaning of the data.
-            if unpacked_data.endswith(b"\x00"):
+            # Only if there's exactly one terminator though, otherwise re-serializing
+            # the decoded string wouldn't give us back the same bytes.
+            if unpacked_data.endswith(b"\x00") and not unpacked_data.endswith(b"\x00\x00"):
                 try:
                     return unpacked_data.decode("utf8").rstrip("\x00")
                 except UnicodeDecodeError:
